@@ -272,7 +272,10 @@ class Topo (object):
     n = 0
     while self.queue and n < 10000:
       j, q, raw = self.queue.pop(0)
-      if j in self.sw:
+      # (a cable that ends at a port the switch does not have - it was
+      #  hot-plugged before the switch reconnected with its initial ports
+      #  only - delivers nothing)
+      if j in self.sw and q in self.sw[j].switch.ports:
         if self.flood_seen is not None and raw[12:14] == b"\x88\xb5":
           self.flood_seen.setdefault(j, 0)
           self.flood_seen[j] += 1
